@@ -13,6 +13,7 @@
 #include <unistd.h>
 #include <sys/mman.h>
 #include <csignal>
+#include <cerrno>
 #include <cstring>
 #include <sys/wait.h>
 #include <sys/stat.h>
@@ -213,7 +214,15 @@ namespace
       }
       c.count("runner_children");
       int st = 0;
-      while(waitpid(p, &st, 0) < 0) {}
+      // the runner child works through many cases while this worker stays at the current one: keep the runner's watchdog informed
+      for(;;)
+      {
+        pid_t w = waitpid(p, &st, WNOHANG);
+        if(w == p) break;
+        if(w < 0 && errno != EINTR) break;
+        c.heartbeat();
+        usleep(20000);
+      }
       if(WIFSIGNALED(st)) { g_log.have_crash = true; g_log.crash_idx = g_log.hdr()->cur; g_log.crash_sig = WTERMSIG(st); g_log.crash_phase = g_log.hdr()->phase; g_log.crash_stderr = g_log.read_stderr(); }
       else if(WIFEXITED(st) && WEXITSTATUS(st) != 0) { g_log.have_crash = true; g_log.crash_idx = g_log.hdr()->cur; g_log.crash_sig = -WEXITSTATUS(st); g_log.crash_phase = g_log.hdr()->phase; g_log.crash_stderr = g_log.read_stderr(); }
     }
@@ -371,12 +380,15 @@ namespace
     return [&text, reason](const std::string& kind, const std::string& msg, const std::string& err) -> std::string
     {
       const Diag d = diagnose(text);
-      if(kind == "crash")
+      if(kind == "crash" || kind == "hang")
       {
+        // (a 'hang' = 120 s alarm: under heavy machine load the sanitizer may still be writing its report, and out-of-range indices
+        //  may send the index calculator into a very long loop - same defect class if it happened inside the linker)
         // msg = "phase=N": the stage of c11::parse_typed in which the child died (harness-side marker, independent of the
         // sanitizer's wording and of UBSAN_OPTIONS=print_stacktrace); FEAT's own assertion texts are used where they exist.
         const int phase = (msg.compare(0, 6, "phase=") == 0) ? std::atoi(msg.c_str() + 6) : -1;
         // F3: XASSERT of the AttributeSet constructor while the parsers run
+        if(kind == "hang" && !((d.f4_range || d.f4_closure) && phase == PH_LINK)) return std::string();
         if(d.f3 && phase == PH_SCAN && err.find("AttributeSet") != std::string::npos) return "known-F3 attribute dim outside int range";
         // F4: died inside MeshNodeLinker::execute (deduct_topology -> IndexSetFiller / index calculator) of the first parse
         if((d.f4_range || d.f4_closure) && phase == PH_LINK) return "known-F4 unchecked mapping target index";
